@@ -16,19 +16,19 @@ open Model C14
 
 variable {K : Type} [Field K] [LinearOrder K] [IsStrictOrderedRing K] (sq : K → K)
 
-def liftContact3 (c : Contact3 K) : Contact3 (Opt K sq) := ⟨lift3 c.p1, lift3 c.p2, val c.dist⟩
-def liftContact2 (c : Contact2 K) : Contact2 (Opt K sq) := ⟨lift2 c.p1, lift2 c.p2, val c.dist⟩
-def liftManifold3 (m : Manifold3 K) : Manifold3 (Opt K sq) := ⟨m.points.map (liftContact3 sq), lift3 m.n1, lift3 m.n2⟩
-def liftManifold2 (m : Manifold2 K) : Manifold2 (Opt K sq) := ⟨m.points.map (liftContact2 sq), lift2 m.n1, lift2 m.n2⟩
+def liftMContact3 (c : Contact3 K) : Contact3 (Opt K sq) := ⟨lift3 c.p1, lift3 c.p2, val c.dist⟩
+def liftMContact2 (c : Contact2 K) : Contact2 (Opt K sq) := ⟨lift2 c.p1, lift2 c.p2, val c.dist⟩
+def liftManifold3 (m : Manifold3 K) : Manifold3 (Opt K sq) := ⟨m.points.map (liftMContact3 sq), lift3 m.n1, lift3 m.n2⟩
+def liftManifold2 (m : Manifold2 K) : Manifold2 (Opt K sq) := ⟨m.points.map (liftMContact2 sq), lift2 m.n1, lift2 m.n2⟩
 
-@[optsimp] private theorem liftContact3_mk (a b : V3 K) (d : K) :
-    (⟨lift3 a, lift3 b, val d⟩ : Contact3 (Opt K sq)) = liftContact3 sq ⟨a, b, d⟩ := id rfl
-@[optsimp] private theorem liftContact2_mk (a b : V2 K) (d : K) :
-    (⟨lift2 a, lift2 b, val d⟩ : Contact2 (Opt K sq)) = liftContact2 sq ⟨a, b, d⟩ := id rfl
+@[optsimp] private theorem liftMContact3_mk (a b : V3 K) (d : K) :
+    (⟨lift3 a, lift3 b, val d⟩ : Contact3 (Opt K sq)) = liftMContact3 sq ⟨a, b, d⟩ := id rfl
+@[optsimp] private theorem liftMContact2_mk (a b : V2 K) (d : K) :
+    (⟨lift2 a, lift2 b, val d⟩ : Contact2 (Opt K sq)) = liftMContact2 sq ⟨a, b, d⟩ := id rfl
 @[optsimp] private theorem liftManifold3_points (m : Manifold3 K) :
-    (liftManifold3 sq m).points = m.points.map (liftContact3 sq) := id rfl
+    (liftManifold3 sq m).points = m.points.map (liftMContact3 sq) := id rfl
 @[optsimp] private theorem liftManifold2_points (m : Manifold2 K) :
-    (liftManifold2 sq m).points = m.points.map (liftContact2 sq) := id rfl
+    (liftManifold2 sq m).points = m.points.map (liftMContact2 sq) := id rfl
 @[optsimp] private theorem liftManifold3_clear (m : Manifold3 K) :
     (liftManifold3 sq m).clear = liftManifold3 sq m.clear := id rfl
 @[optsimp] private theorem liftManifold2_clear (m : Manifold2 K) :
@@ -36,10 +36,10 @@ def liftManifold2 (m : Manifold2 K) : Manifold2 (Opt K sq) := ⟨m.points.map (l
 @[optsimp] private theorem setFirst_map {α β : Type} (f : α → β) (c : α) (l : List α) :
     setFirst (f c) (l.map f) = (setFirst c l).map f := by cases l <;> rfl
 @[optsimp] private theorem flipped3_lift (p1 p2 : V3 K) (d : K) (fl : Bool) :
-    Contact3.flipped (lift3 p1 : V3 (Opt K sq)) (lift3 p2) (val d) fl = liftContact3 sq (Contact3.flipped p1 p2 d fl) := by
+    Contact3.flipped (lift3 p1 : V3 (Opt K sq)) (lift3 p2) (val d) fl = liftMContact3 sq (Contact3.flipped p1 p2 d fl) := by
   cases fl <;> rfl
 @[optsimp] private theorem flipped2_lift (p1 p2 : V2 K) (d : K) (fl : Bool) :
-    Contact2.flipped (lift2 p1 : V2 (Opt K sq)) (lift2 p2) (val d) fl = liftContact2 sq (Contact2.flipped p1 p2 d fl) := by
+    Contact2.flipped (lift2 p1 : V2 (Opt K sq)) (lift2 p2) (val d) fl = liftMContact2 sq (Contact2.flipped p1 p2 d fl) := by
   cases fl <;> rfl
 
 /-- **C20 (contact_manifold_ball_ball, 3-D and 2-D)**: defined for every finite relative pose (any quaternion), radii (any sign,
@@ -62,10 +62,10 @@ theorem defined_c14_ballBall (pos12 : Iso3 K) (r1 r2 pred : K) (m : Manifold3 K)
     all_goals first | rfl | contradiction | (exfalso; simp only [optsimp] at *; tauto)
 
 
-def liftVK3 (r : V3 K × K) : V3 (Opt K sq) × Opt K sq := (lift3 r.1, val r.2)
-def liftVK2 (r : V2 K × K) : V2 (Opt K sq) × Opt K sq := (lift2 r.1, val r.2)
-def liftBV3 (r : Bool × V3 K) : Bool × V3 (Opt K sq) := (r.1, lift3 r.2)
-def liftBV2 (r : Bool × V2 K) : Bool × V2 (Opt K sq) := (r.1, lift2 r.2)
+def liftMVK3 (r : V3 K × K) : V3 (Opt K sq) × Opt K sq := (lift3 r.1, val r.2)
+def liftMVK2 (r : V2 K × K) : V2 (Opt K sq) × Opt K sq := (lift2 r.1, val r.2)
+def liftMBV3 (r : Bool × V3 K) : Bool × V3 (Opt K sq) := (r.1, lift3 r.2)
+def liftMBV2 (r : Bool × V2 K) : Bool × V2 (Opt K sq) := (r.1, lift2 r.2)
 
 /-- **C20 (`Unit::try_new_and_get(v, 0.0)`)**: `v / sqrt |v|²` only when `|v|² > 0`; defined for the zero vector (`none`) and for
 every vector at which the square-root operation does not vanish (`SqrtPos`, no underflow). -/
@@ -73,8 +73,8 @@ theorem defined_c14_tryNormalize {θ : K} (hs : SqrtPos sq θ) (v : V3 K) (w : V
     (hv : letI := fieldNum K sq; v.normSq = 0 ∨ θ < v.normSq)
     (hw : letI := fieldNum K sq; w.normSq = 0 ∨ θ < w.normSq) :
     letI := fieldNum K sq
-    tryNormalize3 (lift3 v : V3 (Opt K sq)) = (tryNormalize3 v).map (liftVK3 sq) ∧
-    tryNormalize2 (lift2 w : V2 (Opt K sq)) = (tryNormalize2 w).map (liftVK2 sq) := by
+    tryNormalize3 (lift3 v : V3 (Opt K sq)) = (tryNormalize3 v).map (liftMVK3 sq) ∧
+    tryNormalize2 (lift2 w : V2 (Opt K sq)) = (tryNormalize2 w).map (liftMVK2 sq) := by
   letI := fieldNum K sq
   refine ⟨?_, ?_⟩
   · simp only [tryNormalize3, optsimp]
@@ -106,8 +106,8 @@ theorem defined_c14_contactNormal {θ : K} (hs : SqrtPos sq θ) (dpos t : V3 K) 
     (h1' : letI := fieldNum K sq; dpos'.normSq = 0 ∨ θ < dpos'.normSq)
     (h2' : letI := fieldNum K sq; t'.normSq = 0 ∨ θ < t'.normSq) :
     letI := fieldNum K sq
-    contactNormal3 (lift3 dpos : V3 (Opt K sq)) (lift3 t) = liftVK3 sq (contactNormal3 dpos t) ∧
-    contactNormal2 (lift2 dpos' : V2 (Opt K sq)) (lift2 t') = liftVK2 sq (contactNormal2 dpos' t') := by
+    contactNormal3 (lift3 dpos : V3 (Opt K sq)) (lift3 t) = liftMVK3 sq (contactNormal3 dpos t) ∧
+    contactNormal2 (lift2 dpos' : V2 (Opt K sq)) (lift2 t') = liftMVK2 sq (contactNormal2 dpos' t') := by
   letI := fieldNum K sq
   have a1 := (defined_c14_tryNormalize sq hs dpos dpos' h1 h1')
   have a2 := (defined_c14_tryNormalize sq hs t t' h2 h2')
@@ -129,13 +129,13 @@ theorem defined_c14_contactNormal {θ : K} (hs : SqrtPos sq θ) (dpos t : V3 K) 
 
 
 @[optsimp] private theorem liftManifold3_mk (l : List (Contact3 K)) (a b : V3 K) :
-    (⟨l.map (liftContact3 sq), lift3 a, lift3 b⟩ : Manifold3 (Opt K sq)) = liftManifold3 sq ⟨l, a, b⟩ := id rfl
+    (⟨l.map (liftMContact3 sq), lift3 a, lift3 b⟩ : Manifold3 (Opt K sq)) = liftManifold3 sq ⟨l, a, b⟩ := id rfl
 @[optsimp] private theorem liftManifold2_mk (l : List (Contact2 K)) (a b : V2 K) :
-    (⟨l.map (liftContact2 sq), lift2 a, lift2 b⟩ : Manifold2 (Opt K sq)) = liftManifold2 sq ⟨l, a, b⟩ := id rfl
+    (⟨l.map (liftMContact2 sq), lift2 a, lift2 b⟩ : Manifold2 (Opt K sq)) = liftManifold2 sq ⟨l, a, b⟩ := id rfl
 @[optsimp] private theorem list_singleton_map3 (c : Contact3 K) :
-    [liftContact3 sq c] = [c].map (liftContact3 sq) := id rfl
+    [liftMContact3 sq c] = [c].map (liftMContact3 sq) := id rfl
 @[optsimp] private theorem list_singleton_map2 (c : Contact2 K) :
-    [liftContact2 sq c] = [c].map (liftContact2 sq) := id rfl
+    [liftMContact2 sq c] = [c].map (liftMContact2 sq) := id rfl
 
 /-- **C20 (`contact_manifold_convex_ball` after the normal is known)**: products, sums and one comparison — defined for every input. -/
 theorem defined_c14_convexBallOut (pos12 : Iso3 K) (p1 n1 : V3 K) (dist r2 pred : K) (flipped : Bool) (m : Manifold3 K)
@@ -159,7 +159,7 @@ flip flag — **the ball centre exactly on the shape (`dpos = 0`) and coincident
 theorem defined_c14_convexBall3 {θ : K} (hs : SqrtPos sq θ)
     (proj : V3 (Opt K sq) → Bool × V3 (Opt K sq)) (proj' : V3 K → Bool × V3 K)
     (pos12 : Iso3 K) (r2 pred : K) (flipped : Bool) (m : Manifold3 K)
-    (hp : proj (lift3 pos12.t) = liftBV3 sq (proj' pos12.t))
+    (hp : proj (lift3 pos12.t) = liftMBV3 sq (proj' pos12.t))
     (hd : letI := fieldNum K sq; (pos12.t.sub (proj' pos12.t).2).normSq = 0 ∨ θ < (pos12.t.sub (proj' pos12.t).2).normSq)
     (ht : letI := fieldNum K sq; pos12.t.normSq = 0 ∨ θ < pos12.t.normSq) :
     letI := fieldNum K sq
@@ -168,7 +168,7 @@ theorem defined_c14_convexBall3 {θ : K} (hs : SqrtPos sq θ)
   letI := fieldNum K sq
   have hn := (defined_c14_contactNormal sq hs (pos12.t.sub (proj' pos12.t).2) pos12.t ⟨0, 0⟩ ⟨0, 0⟩ hd ht
     (Or.inl (by simp [V2.normSq, V2.dot])) (Or.inl (by simp [V2.normSq, V2.dot]))).1
-  simp only [convexBall3, liftIso3_t, hp, liftBV3, lift3_sub, hn, liftVK3]
+  simp only [convexBall3, liftIso3_t, hp, liftMBV3, lift3_sub, hn, liftMVK3]
   cases (proj' pos12.t).1
   · simp only [Bool.false_eq_true, if_false]
     exact (defined_c14_convexBallOut sq pos12 _ _ _ r2 pred flipped m Iso2.identity ⟨0, 0⟩ ⟨0, 0⟩ ⟨[], ⟨0, 0⟩, ⟨0, 0⟩⟩).1
@@ -178,7 +178,7 @@ theorem defined_c14_convexBall3 {θ : K} (hs : SqrtPos sq θ)
 theorem defined_c14_convexBall2 {θ : K} (hs : SqrtPos sq θ)
     (proj : V2 (Opt K sq) → Bool × V2 (Opt K sq)) (proj' : V2 K → Bool × V2 K)
     (pos12 : Iso2 K) (r2 pred : K) (flipped : Bool) (m : Manifold2 K)
-    (hp : proj (lift2 pos12.t) = liftBV2 sq (proj' pos12.t))
+    (hp : proj (lift2 pos12.t) = liftMBV2 sq (proj' pos12.t))
     (hd : letI := fieldNum K sq; (pos12.t.sub (proj' pos12.t).2).normSq = 0 ∨ θ < (pos12.t.sub (proj' pos12.t).2).normSq)
     (ht : letI := fieldNum K sq; pos12.t.normSq = 0 ∨ θ < pos12.t.normSq) :
     letI := fieldNum K sq
@@ -187,7 +187,7 @@ theorem defined_c14_convexBall2 {θ : K} (hs : SqrtPos sq θ)
   letI := fieldNum K sq
   have hn := (defined_c14_contactNormal sq hs ⟨0, 0, 0⟩ ⟨0, 0, 0⟩ (pos12.t.sub (proj' pos12.t).2) pos12.t
     (Or.inl (by simp [V3.normSq, V3.dot])) (Or.inl (by simp [V3.normSq, V3.dot])) hd ht).2
-  simp only [convexBall2, liftIso2_t, hp, liftBV2, lift2_sub, hn, liftVK2]
+  simp only [convexBall2, liftIso2_t, hp, liftMBV2, lift2_sub, hn, liftMVK2]
   cases (proj' pos12.t).1
   · simp only [Bool.false_eq_true, if_false]
     exact (defined_c14_convexBallOut sq Iso3.identity ⟨0, 0, 0⟩ ⟨0, 0, 0⟩ _ r2 pred flipped ⟨[], ⟨0, 0, 0⟩, ⟨0, 0, 0⟩⟩ pos12 _ _ m).2
@@ -213,8 +213,8 @@ def liftProjSt (st : ProjSt K) : ProjSt (Opt K sq) := ⟨val st.best, st.isMins,
 defined for every half-extents (flat boxes) and point: **centre, medial-plane ties, faces, edges, vertices** included. -/
 theorem defined_c14_cuboidProject (he pt : V3 K) (he' pt' : V2 K) :
     letI := fieldNum K sq
-    cuboidProject3 (lift3 he : V3 (Opt K sq)) (lift3 pt) = liftBV3 sq (cuboidProject3 he pt) ∧
-    cuboidProject2 (lift2 he' : V2 (Opt K sq)) (lift2 pt') = liftBV2 sq (cuboidProject2 he' pt') := by
+    cuboidProject3 (lift3 he : V3 (Opt K sq)) (lift3 pt) = liftMBV3 sq (cuboidProject3 he pt) ∧
+    cuboidProject2 (lift2 he' : V2 (Opt K sq)) (lift2 pt') = liftMBV2 sq (cuboidProject2 he' pt') := by
   letI := fieldNum K sq
   refine ⟨?_, ?_⟩
   · simp only [cuboidProject3, optsimp]
